@@ -202,6 +202,14 @@ func main() {
 		}
 		return
 	}
+	if os.Getenv("LOGGCHECK_ALIASES") != "" {
+		if _, err := Load("", nil); err == nil {
+			for n := range aliasNotes {
+				fmt.Println("ALIAS", n)
+			}
+		}
+		return
+	}
 	var filter map[string]string
 	if *replay != "" {
 		filter = readReplay(*replay)
